@@ -12,3 +12,9 @@ CHECKS["C07"] = dict(
     text="DeltaCollector.compute (created/updated = sorted set differences under the stable-equality spec), _stable_equal, _build_pre_checks / _build_post_checks / _type_check_entry (PASS iff the stated condition, for arbitrary key lists and type expectations), _context_snapshot (fresh copy, context untouched), _iso_now / _now_timestamp against a UTC clock contract with symbolic zone offset, _start_timing/_end_timing non-negative durations. Loops cut by invariants / closed forms; no bound on key counts.",
     note="Not under contract yet (listed as unverified): _resolve_params_with_sources provenance lemma, digest chaining in execute(), processor.ref. Assumed: serialize/sha256/safe_repr deterministic (uninterpreted), == on user values pure (PyEq), clock contract datetime.now() = UTC + zone offset.",
     ref="DESIGN.md section 7 (C07)")
+CHECKS["C01"] = dict(
+    level="proof",
+    technique="contract-based deductive verification: contracts on parameter resolution, node processing, context observers and generated context processors; VCs from the real AST, z3",
+    text="resolve_runtime_value = Resolve(config > context > default) and KeyError iff unresolvable; _default_for against the metadata definition; _get_processor_parameters (loop invariant: parameters = Resolve on the names seen) ; _DataNode._process (type gate, then Logic on the resolved parameters, context object preserved, failure exactly at the prescribed point with the processor not run); probe node (data passes through, ctx' = ctx[key := result]); validating observer and DataOperation notifier (KeyError iff undeclared, nothing else written); generated rename/delete processors (a present non-None value is moved/removed, only declared keys touched). Arbitrary configs/contexts/name lists, no bound.",
+    note="Not under contract yet: SemantivaOrchestrator.execute node loop (fold of node semantics), slicers, sweep wrappers, IO adapters, template processor, string->class resolution. Processor logic is uninterpreted (LogicOut/LogicFails).",
+    ref="DESIGN.md section 7 (C01)")
